@@ -600,3 +600,489 @@ package go_clipper2
 //@   requires ae != nil
 //@   loop 0 step [count-evenodd] ae2 == old(ae2).nextInAEL && cnt2 == old(cnt2) + ite(old(ae2).localMin.PolyType == Clip, 1, 0) && cnt1 == old(cnt1) + ite(isClosedSubj(old(ae2)), 1, 0)
 //@   loop 1 step [count-winding] ae2 == old(ae2).nextInAEL && ae.windCount2 == old(ae.windCount2) + ite(old(ae2).localMin.PolyType == Clip, old(ae2).windDx, 0) && ae.windCount == old(ae.windCount) + ite(isClosedSubj(old(ae2)), old(ae2).windDx, 0)
+
+// ---------------------------------------------------------------------------------
+// C03: zero-annotation panic-freedom sweep (functions whose every index, slice, nil, division,
+// make and panic obligation discharges with no precondition; integer arithmetic wraps as in Go)
+// ---------------------------------------------------------------------------------
+
+//@ func AreaD
+//@   props C03
+//@   panicfree
+
+//@ func AreaPathsD
+//@   props C03
+//@   panicfree
+
+//@ func BooleanOpPolyTree64
+//@   props C03
+//@   panicfree
+
+//@ func ClipperOffset.AddPaths
+//@   props C03
+//@   panicfree
+
+//@ func ClipperOffset.SetDeltaCallback
+//@   props C03
+//@   panicfree
+
+//@ func ClipperOffset.getPerpendic
+//@   props C03
+//@   panicfree
+
+//@ func ClipperOffset.getPerpendicD
+//@   props C03
+//@   panicfree
+
+//@ func ClipperOffset.offsetOpenJoined
+//@   props C03
+//@   panicfree
+
+//@ func Ellipse64
+//@   props C03
+//@   panicfree
+
+//@ func EllipseD
+//@   props C03
+//@   panicfree
+
+//@ func InflatePaths64
+//@   props C03
+//@   panicfree
+
+//@ func InflatePathsD
+//@   props C03
+//@   panicfree
+
+//@ func IsOdd
+//@   props C03
+//@   panicfree
+
+//@ func IsPositiveD
+//@   props C03
+//@   panicfree
+
+//@ func NewClipperOffset
+//@   props C03
+//@   panicfree
+
+//@ func NewFloatPoint64
+//@   props C03
+//@   panicfree
+
+//@ func NewGroup
+//@   props C03
+//@   panicfree
+
+//@ func NewHorzJoin
+//@   props C03
+//@   panicfree
+
+//@ func NewHorzSegment
+//@   props C03
+//@   panicfree
+
+//@ func NewIntersectNode
+//@   props C03
+//@   panicfree
+
+//@ func NewLocalMinima
+//@   props C03
+//@   panicfree
+
+//@ func NewOutPt2
+//@   props C03
+//@   panicfree
+
+//@ func NewPolyPathBase
+//@   props C03
+//@   panicfree
+
+//@ func NewPolyTree64
+//@   props C03
+//@   panicfree
+
+//@ func NewPolyTreeD
+//@   props C03
+//@   panicfree
+
+//@ func NewRect64
+//@   props C03
+//@   panicfree
+
+//@ func NewRect64Invalid
+//@   props C03
+//@   panicfree
+
+//@ func NewRectD
+//@   props C03
+//@   panicfree
+
+//@ func NewRectDInvalid
+//@   props C03
+//@   panicfree
+
+//@ func NewVertex
+//@   props C03
+//@   panicfree
+
+//@ func Point64.Add
+//@   props C03
+//@   panicfree
+
+//@ func Point64.Equals
+//@   props C03
+//@   panicfree
+
+//@ func Point64.NEquals
+//@   props C03
+//@   panicfree
+
+//@ func Point64.Sub
+//@   props C03
+//@   panicfree
+
+//@ func Point64.ToPoint64
+//@   props C03
+//@   panicfree
+
+//@ func Point64.ToPointD
+//@   props C03
+//@   panicfree
+
+//@ func Point64.ToPointDScale
+//@   props C03
+//@   panicfree
+
+//@ func PointD.Equals
+//@   props C03
+//@   panicfree
+
+//@ func PointD.NEquals
+//@   props C03
+//@   panicfree
+
+//@ func PointD.Negate
+//@   props C03
+//@   panicfree
+
+//@ func PointD.Scale
+//@   props C03
+//@   panicfree
+
+//@ func PointD.ToPoint64
+//@   props C03
+//@   panicfree
+
+//@ func PointD.ToPoint64Scale
+//@   props C03
+//@   panicfree
+
+//@ func PointsNearEqual
+//@   props C03
+//@   panicfree
+
+//@ func PolyPathBase.AddChild
+//@   props C03
+//@   panicfree
+
+//@ func PolyPathBase.Clear
+//@   props C03
+//@   panicfree
+
+//@ func PolyPathBase.Count
+//@   props C03
+//@   panicfree
+
+//@ func PolyPathBase.GetChildren
+//@   props C03
+//@   panicfree
+
+//@ func PolyPathBase.IsHole
+//@   props C03
+//@   panicfree
+
+//@ func PolyPathBase.Level
+//@   props C03
+//@   panicfree
+
+//@ func PolyPathBase.Polygon
+//@   props C03
+//@   panicfree
+
+//@ func PolyPathBase.Scale
+//@   props C03
+//@   panicfree
+
+//@ func PolyPathBase.SetScale
+//@   props C03
+//@   panicfree
+
+//@ func Rect64.AsPath
+//@   props C03
+//@   panicfree
+
+//@ func Rect64.Contains
+//@   props C03
+//@   panicfree
+
+//@ func Rect64.Intersects
+//@   props C03
+//@   panicfree
+
+//@ func Rect64.IsEmpty
+//@   props C03
+//@   panicfree
+
+//@ func Rect64.IsInvalid
+//@   props C03
+//@   panicfree
+
+//@ func Rect64.MidPoint
+//@   props C03
+//@   panicfree
+
+//@ func RectD.AsPath
+//@   props C03
+//@   panicfree
+
+//@ func RectD.Contains
+//@   props C03
+//@   panicfree
+
+//@ func RectD.Intersects
+//@   props C03
+//@   panicfree
+
+//@ func RectD.IsEmpty
+//@   props C03
+//@   panicfree
+
+//@ func RectD.IsInvalid
+//@   props C03
+//@   panicfree
+
+//@ func RectD.MidPoint
+//@   props C03
+//@   panicfree
+
+//@ func ScaleRect64
+//@   props C03
+//@   panicfree
+
+//@ func VertexPoolList.Add
+//@   props C03
+//@   panicfree
+
+//@ func VertexPoolList.EnsureCapacity
+//@   props C03
+//@   panicfree
+
+//@ func WithArcTolerance
+//@   props C03
+//@   panicfree
+
+//@ func WithMitterLimit
+//@   props C03
+//@   panicfree
+
+//@ func WithPrecision
+//@   props C03
+//@   panicfree
+
+//@ func absInt
+//@   props C03
+//@   panicfree
+
+//@ func almostZero
+//@   props C03
+//@   panicfree
+
+//@ func areOpposites
+//@   props C03
+//@   panicfree
+
+//@ func areaTriangle
+//@   props C03
+//@   panicfree
+
+//@ func checkCastInt64
+//@   props C03
+//@   panicfree
+
+//@ func clipperBase.AddPath
+//@   props C03
+//@   panicfree
+
+//@ func clipperBase.addPaths
+//@   props C03
+//@   panicfree
+
+//@ func clipperBase.addSubject
+//@   props C03
+//@   panicfree
+
+//@ func clipperBase.adjustCurrXAndCopyToSEL
+//@   props C03
+//@   panicfree
+
+//@ func clipperBase.baseAddPaths
+//@   props C03
+//@   panicfree
+
+//@ func clipperBase.disposeIntersectNodes
+//@   props C03
+//@   panicfree
+
+//@ func clipperBase.doIntersections
+//@   props C03
+//@   panicfree
+
+//@ func clipperBase.newOutRec
+//@   props C03
+//@   panicfree
+
+//@ func clipperBase.popHorz
+//@   props C03
+//@   panicfree
+
+//@ func crossProductD
+//@   props C03
+//@   panicfree
+
+//@ func dotProduct64
+//@   props C03
+//@   panicfree
+
+//@ func dotProductD
+//@   props C03
+//@   panicfree
+
+//@ func getAdjacentLocation
+//@   props C03
+//@   panicfree
+
+//@ func getAvgUnitVector
+//@   props C03
+//@   panicfree
+
+//@ func getClosestPtOnSegment
+//@   props C03
+//@   panicfree
+
+//@ func getDx
+//@   props C03
+//@   panicfree
+
+//@ func getEdgesForPt
+//@   props C03
+//@   panicfree
+
+//@ func getLocation
+//@   props C03
+//@   panicfree
+
+//@ func getRealOutRec
+//@   props C03
+//@   panicfree
+
+//@ func getSegmentIntersectPt
+//@   props C03
+//@   panicfree
+
+//@ func getUnitNormal
+//@   props C03
+//@   panicfree
+
+//@ func hasHorzOverlap
+//@   props C03
+//@   panicfree
+
+//@ func hasVertOverlap
+//@   props C03
+//@   panicfree
+
+//@ func headingClockwise
+//@   props C03
+//@   panicfree
+
+//@ func hypotenuse
+//@   props C03
+//@   panicfree
+
+//@ func insertAtIndex
+//@   props C03
+//@   panicfree
+
+//@ func intersectPoint
+//@   props C03
+//@   panicfree
+
+//@ func isAlmostZero
+//@   props C03
+//@   panicfree
+
+//@ func isHeadingClockwise
+//@   props C03
+//@   panicfree
+
+//@ func isHorizontalPoint
+//@   props C03
+//@   panicfree
+
+//@ func isValidOwner
+//@   props C03
+//@   panicfree
+
+//@ func newOutPt
+//@   props C03
+//@   panicfree
+
+//@ func newReuseableDataContainer64
+//@   props C03
+//@   panicfree
+
+//@ func normalizeVector
+//@   props C03
+//@   panicfree
+
+//@ func pointsEqual
+//@   props C03
+//@   panicfree
+
+//@ func ptsReallyClose
+//@   props C03
+//@   panicfree
+
+//@ func reflectPoint
+//@   props C03
+//@   panicfree
+
+//@ func removeAtIndex
+//@   props C03
+//@   panicfree
+
+//@ func reuseableDataContainer64.AddPaths
+//@   props C03
+//@   panicfree
+
+//@ func reuseableDataContainer64.Clear
+//@   props C03
+//@   panicfree
+
+//@ func roundToEven
+//@   props C03
+//@   panicfree
+
+//@ func sqr
+//@   props C03
+//@   panicfree
+
+//@ func swapActives
+//@   props C03
+//@   panicfree
+
+//@ func translatePoint
+//@   props C03
+//@   panicfree
+
